@@ -7,4 +7,10 @@ require (
 	golang.org/x/arch v0.15.0
 )
 
+require (
+	golang.org/x/mod v0.24.0 // indirect
+	golang.org/x/sync v0.12.0 // indirect
+	golang.org/x/tools v0.31.0 // indirect
+)
+
 replace github.com/mmcloughlin/avo => /repo
